@@ -283,4 +283,67 @@ def isUnique (defs : List IdxDef) (i : Nat) : Bool :=
   | some d => d.kind == .unique
   | none => false
 
+/-! ### `add_index` on a table that already contains objects (repaired tree: all or nothing) -/
+
+/-- replace position `n` of a key-result list (missing positions are `attrErr`) -/
+def setAt : List KeyRes → Nat → KeyRes → List KeyRes
+  | [], 0, v => [v]
+  | [], n+1, v => .attrErr :: setAt [] n v
+  | _ :: rs, 0, v => v :: rs
+  | r :: rs, n+1, v => r :: setAt rs n v
+
+/-- the loop of `add_index` over the stored objects `os` (set iteration order): files into index `n` only;
+`TypeError`/`AttributeError` of an object are swallowed (`mkKeys` gives no keys), another exception stops the loop -/
+def addIdxLoop (d : IdxDef) (n : Nat) (cur : ObjId → List KeyRes) : List ObjId → Table → Table × Option Err
+  | [], t => (t, none)
+  | o :: os, t =>
+    match mkKeys d t n o (keyResAt (cur o) n) with
+    | .error e => (t, some e)
+    | .ok (t', _) => addIdxLoop d n cur os t'
+
+/-- the stored objects in the iteration order `order` reported by the implementation (always a permutation of `objs`) -/
+def insertByPos (order : List ObjId) (a : ObjId) : List ObjId → List ObjId
+  | [] => [a]
+  | b :: l => if order.idxOf a ≤ order.idxOf b then a :: b :: l else b :: insertByPos order a l
+
+def iterOrder (objs order : List ObjId) : List ObjId :=
+  match objs with
+  | [] => []
+  | a :: l => insertByPos order a (iterOrder l order)
+
+/-- `add_index(name, definition)` as the index number `defs.length`. Success: the `_ObjRef`s of the new index are appended to
+the `_object_ids` entries and the index is registered. Exception: `index_definition.clear()`, nothing else was touched. -/
+def addIndex (defs : List IdxDef) (w : World) (d : IdxDef) (order : List ObjId) : World × Option Err :=
+  let n := defs.length
+  let os := iterOrder w.tab.objs order
+  match addIdxLoop d n w.cur os w.tab with
+  | (t, none) =>
+    ({ w with
+        tab := { t with refs := (fun o =>
+          if o ∈ os then some ((t.refs o).getD [] ++ (keysOfRes d (keyResAt (w.cur o) n)).map (fun k => (n, k)))
+          else t.refs o) }
+        snap := (fun o => setAt (w.snap o) n (keyResAt (w.cur o) n)) }, none)
+  | (t, some e) => ({ w with tab := { t with idx := fun i k => if i = n then [] else t.idx i k } }, some e)
+
+/-- a table whose set of indices can grow at run time -/
+structure XWorld where
+  defs : List IdxDef
+  w : World
+
+inductive XOp
+  | op (o : Op)
+  | addIndex (d : IdxDef) (order : List ObjId)
+
+def xstep (x : XWorld) : XOp → XWorld × Option Err
+  | .op o =>
+    let r := step x.defs x.w o
+    ({ defs := x.defs, w := r.1 }, r.2)
+  | .addIndex d order =>
+    match addIndex x.defs x.w d order with
+    | (w', none) => ({ defs := x.defs ++ [d], w := w' }, none)
+    | (w', some e) => ({ defs := x.defs, w := w' }, some e)
+
+def xrun (defs : List IdxDef) (ops : List XOp) : XWorld :=
+  ops.foldl (fun x op => (xstep x op).1) { defs := defs, w := World.init }
+
 end Sdc.Multikey
